@@ -1,5 +1,7 @@
 """C17 helpers: abstract <-> concrete for stream items, stages, sources; instrumented
 source; running a real Iter pipeline and projecting what the property names."""
+import collections
+
 from glom import glom, Iter, Invoke, T, S, SKIP, STOP, Spec, Check, Val
 
 SENT = {'SKIP': SKIP, 'STOP': STOP}
@@ -37,11 +39,44 @@ WILD, NULL = Wildcard(), Null()
 SCOPE = {'cut': 2, 'one': 1}
 
 
+# ---- container classes used to represent items / targets ------------------------------------------
+class FalsyList(list):
+    "a list subclass whose instances are falsy whatever they hold (abstract kind 'flist')"
+    def __bool__(self):
+        return False
+
+
+class ListSub(list):
+    "a list subclass overriding __iter__ and __getitem__ (same abstract value as the plain list)"
+    def __iter__(self):
+        for i in range(len(self)):
+            yield list.__getitem__(self, i)
+
+    def __getitem__(self, i):
+        return list.__getitem__(self, i)
+
+
+Pair = collections.namedtuple('Pair', 'a b')       # a tuple subclass whose constructor takes no iterable
+
+
+class TupSub(tuple):
+    "a tuple subclass with a positional constructor"
+    __slots__ = ()
+
+    def __new__(cls, *items):
+        return tuple.__new__(cls, items)
+
+
 # ---- values -------------------------------------------------------------------------------
-def dec(v):
+def dec(v, sub=False):
+    """abstract -> Python; sub=True represents lists / tuples by subclass instances (the law is the same)"""
     k = v['k']
     if k == 'int':
         return v['i']
+    if k == 'bool':
+        return v['b']
+    if k == 'flist':
+        return FalsyList(dec(x, sub) for x in v['items'])
     if k == 'none':
         return None
     if k == 'any':
@@ -51,9 +86,13 @@ def dec(v):
     if k == 'sent':
         return SENT[v['s']]
     if k == 'list':
-        return [dec(x) for x in v['items']]
+        items = [dec(x, sub) for x in v['items']]
+        return ListSub(items) if sub else items
     if k == 'tuple':
-        return tuple(dec(x) for x in v['items'])
+        items = [dec(x, sub) for x in v['items']]
+        if not sub:
+            return tuple(items)
+        return Pair(*items) if len(items) == 2 else TupSub(*items)
     if k == 'str':
         return v['s']
     raise ValueError('cannot decode %r' % (v,))
@@ -70,8 +109,16 @@ def enc(x):
         return {'k': 'sent', 's': 'STOP'}
     if x is None:
         return {'k': 'none'}
+    if type(x) is bool:
+        return {'k': 'bool', 'b': x}
     if type(x) is int:
         return {'k': 'int', 'i': x}
+    if type(x) is FalsyList:
+        return {'k': 'flist', 'items': [enc(y) for y in x]}
+    if type(x) in (ListSub,):
+        return {'k': 'list', 'items': [enc(y) for y in list.__iter__(x)]}
+    if type(x) in (Pair, TupSub):
+        return {'k': 'tuple', 'items': [enc(y) for y in tuple.__iter__(x)]}
     if type(x) is list:
         return {'k': 'list', 'items': [enc(y) for y in x]}
     if type(x) is tuple:
@@ -139,7 +186,7 @@ def _even(x):
 
 
 def _isempty(x):
-    return type(x) in (list, tuple) and len(x) == 0
+    return isinstance(x, (list, tuple)) and len(x) == 0
 
 
 # name -> glom spec.  The suffix is the spelling (GlomStream!Spelling): plain Python callable, _T a T
@@ -226,9 +273,9 @@ class BudgetExceeded(Exception):
 class Source:
     """iterator over a source descriptor that counts what is pulled from it"""
 
-    def __init__(self, srcd, budget, log=None):
+    def __init__(self, srcd, budget, log=None, sub=False):
         self.kind = srcd['kind']
-        self.items = [dec(x) for x in srcd['items']]
+        self.items = [dec(x, sub) for x in srcd['items']]
         self.budget = budget
         self.n = 0
         self.ended = False
@@ -267,11 +314,11 @@ def call_glom(src, spec, bind_in_spec=False):
     return glom(src, spec, scope=dict(SCOPE))
 
 
-def run_iter(spec, srcd, kmax, budget, want_ev=False, bind_in_spec=False):
+def run_iter(spec, srcd, kmax, budget, want_ev=False, bind_in_spec=False, sub=False):
     """glom(source, spec), then up to kmax next() calls.  Returns the observation:
     outs (abstract), ended, pulled[k] = source events after k calls, budget, exc, ev."""
     log = [] if want_ev else None
-    src = Source(srcd, budget, log)
+    src = Source(srcd, budget, log, sub)
     obs = dict(outs=[], ended=False, pulled=[], budget=False, exc='', ev=log if want_ev else [])
     try:
         it = call_glom(src, spec, bind_in_spec)
@@ -306,9 +353,26 @@ def run_iter(spec, srcd, kmax, budget, want_ev=False, bind_in_spec=False):
     return obs
 
 
-def run_terminal(spec, srcd, budget, bind_in_spec=False):
-    """glom(source, spec) for a terminal spec (first() / all()): value, source events, exc."""
-    src = Source(srcd, budget)
+TARGET_KINDS = ('list', 'tuple', 'listsub', 'flist', 'gen')
+
+
+def make_target(srcd, kind, sub=False):
+    """a finite source as an ordinary iterable target: plain list / tuple, a list subclass overriding
+    __iter__, a falsy list subclass holding the data, a generator"""
+    items = [dec(x, sub) for x in srcd['items']]
+    return {'list': list, 'tuple': tuple, 'listsub': ListSub, 'flist': FalsyList,
+            'gen': lambda xs: (x for x in xs)}[kind](items)
+
+
+def run_terminal(spec, srcd, budget, bind_in_spec=False, sub=False, target=None):
+    """glom(source, spec) for a terminal spec (first() / all()): value, source events, exc.
+    target: None = the instrumented one-shot Source; else one of TARGET_KINDS (no pull counting)"""
+    if target is not None:
+        try:
+            return dict(v=call_glom(make_target(srcd, target, sub), spec, bind_in_spec), pulled=0, budget=False, exc='')
+        except Exception as e:
+            return dict(v=None, pulled=0, budget=False, exc=exc_name(e))
+    src = Source(srcd, budget, None, sub)
     try:
         v = call_glom(src, spec, bind_in_spec)
     except BudgetExceeded:
